@@ -76,6 +76,13 @@ def rand_vals(rng, n, sparse, ints=False):
         else: out.append(Fraction(rng.randint(-9, 9)))
     return out
 
+def zero_sum(v, unit=Fraction(1)):
+    """make a non-zero vector whose entries cancel exactly (a `sum == 0 means empty` shortcut would drop it)"""
+    v = list(v)
+    if len(v) >= 2:
+        if v[0] == 0: v[0] = unit
+        v[-1] = -sum(v[:-1])
+    return v
 def p2(e): return Fraction(2) ** int(e)
 def sk(K): return [[str(v) for v in r] for r in K]
 def blur_count(m, kh, kw):
@@ -121,10 +128,11 @@ def gen_inputs(tier, rng):
         vs = rng.choice([-34, -30, 30, 40]) if i % 7 in (1, 6) else 0
         ks = rng.choice([-30, 30]) if i % 7 in (4, 6) else 0
         # kernel entries that need more than 24 significant bits (k +- 2^-30), with integer images so that every sum stays exact
+        if i % 13 == 5: K[kh // 2][kw // 2] -= sum(v for r in K for v in r)         # kernel entries cancel exactly
         fine = (i % 11 == 2)
         if fine: K = [[v + Fraction(rng.choice([-1, 0, 1, 3]), 2 ** 30) for v in r] for r in K]
         for op in (["convolve", "noblur", "matrix", "init"] if i % 3 else ["convolve", "matrix", "whole", "init"]):
-            yield {"op": op, "m": m, "K": sk(K), "seed": seed, "sparse": bool(i % 2), "vs": vs, "ks": ks, "ints": fine}
+            yield {"op": op, "m": m, "K": sk(K), "seed": seed, "sparse": bool(i % 2), "vs": vs, "ks": ks, "ints": fine, "zs": i % 4 == 1}
         # the whole operator, extracted on basis images (unit image / unit blurring image), for small masks
         nb = blur_count(m, kh, kw)
         if i % 6 == 3 and nun + nb <= 14:
@@ -244,6 +252,8 @@ def run_case(inp):
         return dict(base, coq=coq, out=str(out)[:300])
     if op == "whole":
         native = [[Fraction(rng.randint(-9, 9)) * vs for _ in range(len(m[0]))] for _ in range(len(m))]
+        if inp.get("zs"):
+            flat = zero_sum([v for r in native for v in r], vs); native = [flat[y * len(m[0]):(y + 1) * len(m[0])] for y in range(len(m))]
         arr = aa.Array2D.no_mask(values=[fl(r) for r in native], pixel_scales=1.0)
         call_res(aa.Kernel2D.no_mask(values=[fl([v + 1 for v in r[::-1]]) for r in K[::-1]], pixel_scales=1.0).convolved_array_from,
                  array=aa.Array2D.no_mask(values=[fl(r[::-1]) for r in native[::-1]], pixel_scales=1.0))     # decoy (see below)
@@ -263,10 +273,13 @@ def run_case(inp):
     c = aa.Convolver(mask=mask, kernel=kernel)
     ints = bool(inp.get("ints"))
     img = [v * vs for v in rand_vals(rng, nun, inp["sparse"], ints)]
+    zs = bool(inp.get("zs"))
+    if zs: img = zero_sum(img, vs)
     if op == "convolve":
         bm = mask.derive_mask.blurring_from(kernel_shape_native=(kh, kw))
         nb = int(bm.pixels_in_mask)
         bimg = [v * vs for v in rand_vals(rng, nb, inp["sparse"], ints)]
+        if zs: bimg = zero_sum(bimg, vs)
         if inp.get("basis") is not None:
             e = [Fraction(int(j == inp["basis"])) for j in range(nun + nb)]
             img, bimg = e[:nun], e[nun:nun + nb]
@@ -281,6 +294,9 @@ def run_case(inp):
     if op == "matrix":
         P = rng.randint(1, 4)
         M = [[v * vs for v in rand_vals(rng, P, inp["sparse"], ints)] for _ in range(nun)]
+        if zs or inp["seed"] % 3 == 0:
+            col = zero_sum([r[0] for r in M], vs)
+            for r, v in zip(M, col): r[0] = v
         res = c.convolve_mapping_matrix(mapping_matrix=np.array([fl(r) for r in M]))
         out = [[frac(x) for x in r] for r in np.asarray(res)]
         return dict(base, coq=f"(KMatrix {cmask(m)} {cqm(K)} {cqm(M)} {cqm(out)})", out=[[str(x) for x in r] for r in out])
@@ -388,7 +404,10 @@ def run_hist(aa, inp):
         i2 = build_array(aa, img2, mask, m, "plain", rng); b2 = build_array(aa, bimg2, bm, bml, "plain", rng)
         conv(c, m, K, i2, img2, b2, bimg2, "step 2")
         P = rng.randint(1, 3)
-        M = [vals(P) for _ in range(nun)]; Mo = np.array([fl(r) for r in M])
+        M = [vals(P) for _ in range(nun)]
+        col = zero_sum([r[0] for r in M], vs)
+        for r, v in zip(M, col): r[0] = v
+        Mo = np.array([fl(r) for r in M])
         res = c.convolve_mapping_matrix(mapping_matrix=Mo)
         cases.append(f"(KMatrix {cmask(m)} {cqm(K)} {cqm(M)} {cqm([fracs(r) for r in np.asarray(res)])})")
         kept.append(("step 3 blurred mapping matrix", res, fracs(res)))
